@@ -175,7 +175,7 @@ pub fn build() -> Vec<Box<dyn TypeOps>> {
         // big-number vectors
         ["bigvec","big"] Vec<Nat>, ["bigvec","big"] Vec<Int>, ["bigvec","big","host128"] Vec<u128>, ["bigvec","big","host128"] Vec<i128>,
         // other vectors and sequences
-        ["vec"] Vec<String>, ["vec"] Vec<Principal>, ["vec"] Vec<()>, ["vec"] Vec<Reserved>, ["vec"] Vec<Option<u8>>, ["vec","big"] Vec<Option<Nat>>,
+        ["vec"] Vec<String>, ["vec"] Vec<Principal>, ["vec"] Vec<()>, ["vec"] Vec<Reserved>, ["vec","derived"] Vec<EmptyRec>, ["vec"] Vec<Option<u8>>, ["vec","big"] Vec<Option<Nat>>,
         ["vec","primvec"] Vec<Vec<u8>>, ["vec","bigvec","big"] Vec<Vec<Nat>>, ["vec"] Vec<Vec<Vec<u16>>>, ["vec"] Vec<(u8, String)>, ["vec"] Vec<serde_bytes::ByteBuf>,
         ["seq","primvec"] VecDeque<u8>, ["seq","primvec"] VecDeque<i64>, ["seq","bigvec","big"] VecDeque<Nat>, ["seq"] VecDeque<String>,
         ["seq","primvec"] LinkedList<u32>, ["seq","bigvec","big"] LinkedList<Int>, ["seq"] LinkedList<Option<bool>>,
